@@ -10,7 +10,7 @@ BASELINE_OFF = ("cd /repo && /venv/bin/python -m pytest -ra -q -p no:cacheprovid
 
 # id -> (technique, engine, level text, level note, design section)
 CHECKS = {
-    "C01": ("property-based testing (Hypothesis): generated (type, value, options, entry point) against a type-directed conformance predicate with independent constraint semantics",
+    "C01": ("property-based testing (Hypothesis): generated (type, value, options, entry point) against a type-directed conformance predicate with independent constraint semantics; plus a coverage-guided atheris/libFuzzer tier on the text/bytes converters with the same oracle inside the target",
             "hypothesis",
             "Exploration: thousands of generated type declarations (origins x constraints x nesting x combinators) pushed through 7 "
             "public entry points with type-directed and hostile values under the non-waiving options; every accepted result is "
@@ -28,7 +28,7 @@ CHECKS = {
             "inputs x conversion options x 6 entry points; every accepted result is parsed again and compared; a dedicated lax campaign aims "
             "inputs beyond every lax bound (carries, non-multiples of both signs, over-long values, duplicates) and checks the strict form on exact domains.",
             "Trusted: vf/oracle.py:equal (True/1 and False/0 count as equal), vf/constraints.py for the strict form; float outputs judged by idempotence only.", "3/C03"),
-    "C04": ("property-based testing (Hypothesis) with hostile values; oracle = exception class + deterministic line-event budget (sys.monitoring) + body-entered flag",
+    "C04": ("property-based testing (Hypothesis) with hostile values; oracle = exception class + deterministic line-event budget (sys.monitoring) + body-entered flag; plus a coverage-guided atheris/libFuzzer tier (string/bytes inputs decoded into typed fields, oracle inside the target)",
             "hypothesis",
             "Exploration: hostile Python values against generated constrained/logical types through field, parameter, return and "
             "direct-call entries under arbitrary options; any non-ParseError exception or exhausted line budget is a violation, "
@@ -36,8 +36,8 @@ CHECKS = {
             "Trusted: sys.monitoring LINE accounting as termination proxy (budget 2e5+2e3*size, re-run at 50x before calling it a hang).", "3/C04"),
     "C06": ("differential property-based testing (Hypothesis): every generated declaration built twice (data_first_search on/off), same input through both",
             "hypothesis",
-            "Exploration: generated data classes over the Field/Options product (Schema, DataClass, @dataclass) and decorated functions (five parameter kinds, aliases, "
-            "case-insensitive names, **kwargs) with inputs using names, aliases, case variants, duplicates and extra keys; outcomes of the two strategies compared "
+            "Exploration: generated data classes over the Field/Options product (Schema, DataClass, @dataclass; one in three inherits from a generated parent and redeclares fields) and decorated functions (five parameter kinds, aliases, "
+            "case-insensitive names, **kwargs) with inputs using names, aliases, case variants, duplicates, extra keys and names only the parent's declaration accepted; outcomes of the two strategies compared "
             "(equal values; same failure kind via the collected error sets).",
             "Trusted: vf/oracle.py equal/plain; the notion of 'same kind' = (exception class, item) membership in the other strategy's collected set.", "3/C06"),
     "C09": ("property-based testing (Hypothesis): combinator trees in drawn argument orders against truth-table semantics computed from the standalone verdicts of the arguments; permutation metamorphic relation for xor; construction algebra",
@@ -58,7 +58,7 @@ CHECKS = {
             "typed addition, and functions with *args/**kwargs, fed element lists with any subset offending under the 27 policy triples; the result "
             "is compared with the metamorphic expectation built from the standalone strict parse of every element.",
             "Trusted: element-level verdicts via utype.type_transform (judged by C01/C02); vf/oracle.py:equal (sets compared as sets).", "3/C11"),
-    "C12": ("differential/metamorphic property-based testing (Hypothesis + exhaustive pair table): the same (source, target) under the 4 flag combinations; subset+equality relation and independent no-loss / group predicates",
+    "C12": ("differential/metamorphic property-based testing (Hypothesis + exhaustive pair table): the same (source, target) under the 4 flag combinations; subset+equality relation and independent no-loss / group predicates; the case strategy is also driven by atheris/libFuzzer (coverage-guided mutation of the Hypothesis choice sequence)",
             "hypothesis",
             "Exploration: a fixed table of ~170 representative sources x 29 targets x 2 entries x 4 flag sets enumerated completely on every run, "
             "plus generated hostile and type-directed sources; checks that flags only restrict (equal value, same type) and that every accepted "
@@ -107,7 +107,7 @@ CHECKS["C13"] = ("property-based testing (Hypothesis) with an independent valida
             "JSON-encoded output is validated against the output schema, and the input schema's structure is compared with what the parser does on probe inputs.",
             "Trusted: jsonschema 4.26 (Draft 2020-12), Python json, one known-valid probe value per field type; silent zones in ASSUMPTIONS.", "3/C13")
 
-CHECKS["C15"] = ("grammar-based property-based testing (Hypothesis) with an independent validator: schemas generated from the supported keyword fragment, instances valid-by-construction / mutated / arbitrary; build must not raise, strict-mode outputs validated against the source schema by the jsonschema package",
+CHECKS["C15"] = ("grammar-based property-based testing (Hypothesis) with an independent validator: schemas generated from the supported keyword fragment, instances valid-by-construction / mutated / arbitrary; build must not raise, strict-mode outputs validated against the source schema by the jsonschema package; the case strategy is also driven by atheris/libFuzzer (coverage-guided mutation of the Hypothesis choice sequence)",
             "hypothesis",
             "Exploration: JSON Schemas from a grammar over type/format/numeric/length/pattern/enum/const/items/prefixItems/properties/required/additionalProperties/"
             "dependentRequired/min-maxProperties/anyOf/oneOf/allOf (with and without type), nested to depth 2-3, with hostile property names; JsonSchemaParser must build a type, "
